@@ -306,5 +306,5 @@ func TestVerif_C16(t *testing.T) {
 	k := verifkit.Start(t, "C16")
 	prop := c16Prop(k)
 	k.Regress(t, func(sub string, raw json.RawMessage) error { return verifkit.Decode(raw, prop) })
-	verifkit.Rapid(k, t, "clock-sequences", k.N(6000, 300000), c16Gen, prop)
+	verifkit.Rapid(k, t, "clock-sequences", k.N(6000, 3000000), c16Gen, prop)
 }
